@@ -418,4 +418,182 @@ theorem removeIf_result (s : JobList) (pred : Nat → Job → Bool) (report : Bo
   extractLoop_result s pred report _ 0 _ s [] (LoopInv.init s pred report) (by omega)
     (fun k => by simp [Hit]) (by simp)
 
+
+/-- the accumulator only prefixes the yielded indices; the table does not depend on it -/
+theorem extractLoop_acc (pred : Nat → Job → Bool) (report : Bool) (fuel idx len : Nat) (t : JobList) (acc : List Nat) :
+    extractLoop pred report fuel idx len t acc =
+      (acc.reverse ++ (extractLoop pred report fuel idx len t []).1, (extractLoop pred report fuel idx len t []).2) := by
+  induction fuel generalizing idx len t acc with
+  | zero => unfold extractLoop; simp
+  | succ fuel ih =>
+    cases len with
+    | zero => unfold extractLoop; simp
+    | succ len =>
+      unfold extractLoop
+      cases hg : gets t.entries idx with
+      | none => simp only; exact ih _ _ _ _
+      | some j =>
+        simp only
+        split
+        · rw [ih _ _ _ (idx :: acc), ih _ _ _ [idx]]; simp
+        · exact ih _ _ _ _
+
+/-- `take n` yields the first `n` of the indices the drained iterator yields -/
+theorem extractLoopN_take (pred : Nat → Job → Bool) (report : Bool) (fuel n idx len : Nat) (t : JobList) (acc : List Nat) :
+    (extractLoopN pred report fuel n idx len t acc).1 =
+      acc.reverse ++ (extractLoop pred report fuel idx len t []).1.take n := by
+  induction fuel generalizing n idx len t acc with
+  | zero => unfold extractLoopN extractLoop; simp
+  | succ fuel ih =>
+    cases n with
+    | zero => unfold extractLoopN; simp
+    | succ n =>
+    cases len with
+    | zero => unfold extractLoopN extractLoop; simp
+    | succ len =>
+      unfold extractLoopN extractLoop
+      cases hg : gets t.entries idx with
+      | none => simp only; exact ih _ _ _ _ _
+      | some j =>
+        simp only
+        split
+        · rw [ih, extractLoop_acc _ _ _ _ _ _ [idx]]; simp
+        · exact ih _ _ _ _ _
+
+theorem selS_ge {σ : Type} (f : σ → Nat → Job → Bool × σ) (st : σ) (es : Slab) (i k : Nat)
+    (h : k ∈ selS f st es i) : i ≤ k := by
+  induction es generalizing st i with
+  | nil => simp [selS] at h
+  | cons o t ih =>
+    cases o with
+    | none => simp only [selS] at h; have := ih _ _ h; omega
+    | some j =>
+      simp only [selS] at h
+      split at h
+      · rcases List.mem_cons.mp h with rfl | h'
+        · exact Nat.le_refl _
+        · have := ih _ _ h'; omega
+      · have := ih _ _ h; omega
+
+theorem selS_empty {σ : Type} (f : σ → Nat → Job → Bool × σ) (st : σ) (es : Slab) (i : Nat)
+    (h : slabLen es = 0) : selS f st es i = [] := by
+  induction es generalizing st i with
+  | nil => rfl
+  | cons o t ih =>
+    cases o with
+    | none => simp only [selS]; exact ih _ _ (by simpa [slabLen] using h)
+    | some j => simp [slabLen] at h
+
+/-- a stateful closure decides exactly like the pure predicate "the index is among `selS`" -/
+theorem extractLoopS_eq {σ : Type} (f : σ → Nat → Job → Bool × σ) (report : Bool) (P : Nat → Bool)
+    (fuel idx len : Nat) (st : σ) (t : JobList) (acc : List Nat)
+    (hP : ∀ i, idx ≤ i → P i = (selS f st (t.entries.drop idx) idx).contains i) :
+    extractLoopS f report fuel idx len st t acc = extractLoop (fun i _ => P i) report fuel idx len t acc := by
+  induction fuel generalizing idx len st t acc with
+  | zero => unfold extractLoopS extractLoop; rfl
+  | succ fuel ih =>
+    cases len with
+    | zero => unfold extractLoopS extractLoop; rfl
+    | succ len =>
+      unfold extractLoopS extractLoop
+      cases hg : gets t.entries idx with
+      | none =>
+        simp only
+        apply ih
+        intro i hi
+        rw [hP i (by omega)]
+        by_cases hl : idx < t.entries.length
+        · rw [List.drop_eq_getElem_cons hl]
+          have : t.entries[idx] = none := by
+            have h1 : t.entries[idx]? = some t.entries[idx] := List.getElem?_eq_getElem hl
+            cases he : t.entries[idx] with
+            | none => rfl
+            | some j => simp [gets, h1, he] at hg
+          rw [this]; simp only [selS]
+        · rw [List.drop_eq_nil_of_le (by omega), List.drop_eq_nil_of_le (by omega)]; simp only [selS]
+      | some j =>
+        simp only
+        have hl := gets_some_lt hg
+        have hcons : t.entries.drop idx = some j :: t.entries.drop (idx + 1) := by
+          rw [List.drop_eq_getElem_cons hl]
+          have h1 : t.entries[idx]? = some t.entries[idx] := List.getElem?_eq_getElem hl
+          have : t.entries[idx] = some j := by simp [gets, h1] at hg; exact hg
+          rw [this]
+        have hPi := hP idx (Nat.le_refl _)
+        rw [hcons] at hPi
+        simp only [selS] at hPi
+        cases hd : (f st idx j).1 with
+        | true =>
+          rw [hd] at hPi
+          simp only [if_true, List.contains_cons, beq_self_eq_true, Bool.true_or] at hPi
+          simp only [hPi, if_true]
+          apply ih
+          intro i hi
+          rw [hP i (by omega), hcons]
+          simp only [selS, hd, if_true]
+          have hne : (i == idx) = false := by simp; omega
+          rw [List.contains_cons, hne, Bool.false_or]
+          -- the slots behind `idx` after the removal
+          congr 1
+          cases report with
+          | false =>
+            simp only [Bool.false_eq_true, if_false]
+            unfold JobList.remove
+            simp only [hg]
+            by_cases hz : slabLen (t.entries.set idx none) = 0
+            · simp only [hz, if_true, List.drop_nil]
+              have := slabLen_zero_drop _ (idx + 1) hz
+              rw [List.drop_set_of_lt (by omega)] at this
+              rw [selS_empty f _ _ _ this]; rfl
+            · simp only [hz, if_false]; rw [List.drop_set_of_lt (by omega)]
+          | true =>
+            simp only [if_true]
+            unfold JobList.remove
+            have hg' : gets (t.entries.set idx (some { j with changed := false })) idx = some { j with changed := false } := by
+              rw [gets_set _ _ _ _ hl]; simp
+            simp only [hg']
+            by_cases hz : slabLen ((t.entries.set idx (some { j with changed := false })).set idx none) = 0
+            · simp only [hz, if_true, List.drop_nil]
+              have := slabLen_zero_drop _ (idx + 1) hz
+              rw [List.drop_set_of_lt (by omega), List.drop_set_of_lt (by omega)] at this
+              rw [selS_empty f _ _ _ this]; rfl
+            · simp only [hz, if_false]; rw [List.drop_set_of_lt (by omega), List.drop_set_of_lt (by omega)]
+        | false =>
+          rw [hd] at hPi
+          simp only [Bool.false_eq_true, if_false] at hPi
+          have hnot : P idx = false := by
+            rw [hPi]
+            apply Bool.eq_false_iff.mpr
+            intro hc
+            have := selS_ge f _ _ _ _ (List.contains_iff_mem.mp hc)
+            omega
+          simp only [hnot, Bool.false_eq_true, if_false]
+          apply ih
+          intro i hi
+          rw [hP i (by omega), hcons]
+          simp only [selS, hd, Bool.false_eq_true, if_false]
+          congr 1
+          cases report with
+          | false => rfl
+          | true => simp only [if_true]; rw [List.drop_set_of_lt (by omega)]
+
+theorem removeIfS_eq {σ : Type} (s : JobList) (f : σ → Nat → Job → Bool × σ) (st : σ) (report : Bool) :
+    s.removeIfS f st report = s.removeIf (fun i _ => (selS f st s.entries 0).contains i) report :=
+  extractLoopS_eq f report _ _ 0 _ st s [] (fun i _ => by simp)
+
+theorem selS_firstK (p : Nat → Job → Bool) (k : Nat) (es : Slab) (i : Nat) :
+    selS (firstK p) k es i = (selS (fun (_ : Unit) i j => (p i j, ())) () es i).take k := by
+  induction es generalizing k i with
+  | nil => simp [selS]
+  | cons o t ih =>
+    cases o with
+    | none => simp only [selS]; exact ih _ _
+    | some j =>
+      simp only [selS, firstK]
+      by_cases hp : p i j = true
+      · cases k with
+        | zero => simp [hp]; rw [ih]; simp
+        | succ k => simp [hp]; rw [ih]
+      · simp [hp]; exact ih _ _
+
 end YashModel.Job
